@@ -337,6 +337,37 @@ Definition swap_site (nprim : nat) (b2 b3 : bond) (ws : list wit) : option (bond
   | _ => None
   end.
 
+(* ------------------------------------------------------------------ swap_site with swap_jw = True
+   table_and_factor_swapped_jw: after deduplication every row [a1; p; q; label; 0] (p = operator of the old
+   second site, now first; q = operator of the old first site) is rewritten by the Jordan-Wigner rule, kept
+   ABSTRACT here: phi (p, q) = (p', q', c) -- the indices under which the words produced by the rule are
+   interned (new primary operators are appended, so the label column is shifted by nprim' - nprim) and the
+   sign c.  No second deduplication (as in the code). *)
+Definition jw_row (phi : nat * nat -> nat * nat * R) (d : nat) (x : trow) : trow :=
+  match fst x with
+  | [a1; p; q; lab; z] => let '(p', q', c) := phi (p, q) in ([a1; p'; q'; lab + d; z], c *! snd x)
+  | _ => x
+  end.
+Definition swap_site_jw (nprim nprim' : nat) (phi : nat * nat -> nat * nat * R) (b2 b3 : bond) (ws : list wit)
+  : option (bond * bond) :=
+  let t := map (jw_row phi (nprim' - nprim)) (dedup (swap_table nprim b2 b3)) in
+  match sweep ws t with
+  | ([nb2; nb3u; [last]], tf) =>
+      if final_okb tf && Nat.eqb (length nb3u) (length b3) then
+        match resort nprim' (length b3) 0 nb3u last with
+        | Some nb3 => Some (nb2, nb3)
+        | None => None
+        end
+      else None
+  | _ => None
+  end.
+(* the rule as a finite table (execution / tie): pairs not listed are left unchanged with sign 1 *)
+Definition phi_of_table (tbl : list ((nat * nat) * (nat * nat * R))) (pq : nat * nat) : nat * nat * R :=
+  match find (fun e => Nat.eqb (fst (fst e)) (fst pq) && Nat.eqb (snd (fst e)) (snd pq)) tbl with
+  | Some e => snd e
+  | None => (fst pq, snd pq, rI)
+  end.
+
 (* ------------------------------------------------------------------ bond dimensions *)
 (* the witness is a MINIMUM vertex cover (what bipartite_vertex_cover promises; property C20) *)
 Definition cover_size (rsel csel : list key) : nat := length rsel + length csel.
@@ -370,6 +401,19 @@ Definition charge (pq : nat -> Z) (k : key) : Z := fold_right (fun o acc => (pq 
    `out_op[0]` of the code raises) *)
 Definition cols_nonempty (t : table) (rsel csel : list key) : bool :=
   forallb (fun c => existsb (fun x => keqb (ck x) c && negb (memb (rk x) rsel)) t) csel.
+
+(* run-time check of the Koenig certificates (hypothesis `cert_sweep` of the left-part bound): mts = one matching per site *)
+Definition pair_nodupb (l : list key) : bool := nodupb l.
+Definition matching_certb (t : table) (rsel csel : list key) (mt : list (key * key)) : bool :=
+  forallb (fun e => existsb (fun x => keqb (rk x) (fst e) && keqb (ck x) (snd e)) t) mt
+  && nodupb (map fst mt) && nodupb (map snd mt) && Nat.eqb (length mt) (cover_size rsel csel).
+Fixpoint cert_sweepb (ws : list wit) (mts : list (list (key * key))) (t : table) : bool :=
+  match ws, mts with
+  | [], _ => true
+  | WG rs cs :: r, mt :: mr => is_cover t rs cs && nodupb rs && nodupb cs && matching_certb t rs cs mt
+                               && cert_sweepb r mr (snd (decompose_graph t rs cs))
+  | _, _ => false
+  end.
 
 (* run-time check of the hypotheses of mpo_qn_labels along a graph sweep *)
 Fixpoint qn_sweepb (ws : list wit) (t : table) : bool :=
@@ -409,14 +453,14 @@ Definition tie_table (nsite : nat) (idlab : list elem) (terms : list (list elem 
   enc_tab (terms_to_table GiRing gi_zero (snd it) const (seq 0 nsite))
   ++ Z.of_nat (length (fst it)) :: flat_map (fun e => [Z.of_nat (fst e); Z.of_nat (snd e)]) (fst it).
 Definition tie_graph (nsite : nat) (idlab : list elem) (terms : list (list elem * gi)) (const : gi) (cscale : gi)
-           (ws : list (wit GiRing)) (impl_bonds : list (bond GiRing)) : list Z :=
+           (ws : list (wit GiRing)) (mts : list (list (key * key))) (impl_bonds : list (bond GiRing)) : list Z :=
   let tt := snd (intern_terms GiRing nsite idlab [] terms) in
   let t0 := terms_to_table GiRing gi_zero tt const (seq 0 nsite) in
   let raw := raw_table GiRing gi_zero tt const (seq 0 nsite) in
   let fastp := match t0 with [_] => true | _ => false end in
   let res := sweep GiRing gi_zero ws (extend GiRing t0) in
   [b2z fastp; b2z (sweep_okb GiRing gi_zero ws (extend GiRing t0)); b2z (final_okb GiRing gi_zero (snd res));
-   b2z (qn_sweepb GiRing ws (extend GiRing t0))]
+   b2z (qn_sweepb GiRing ws (extend GiRing t0)); b2z (cert_sweepb GiRing ws mts (extend GiRing t0))]
   ++ enc_bonds (match construct GiRing gi_zero tt const (seq 0 nsite) ws with Some bs => bs | None => [] end)
   ++ enc_tabs (sweep_tables GiRing gi_zero ws (extend GiRing t0))
   ++ enc_tab (coeff_diff GiRing gi_zero impl_bonds cscale raw)
@@ -462,3 +506,13 @@ Definition tie_qn (pql : list Z) (bs : list (bond GiRing)) : list Z :=
   let pq := fun o => nth o pql 0%Z in
   let ls := labels_chain GiRing pq [0%Z] bs in
   qntot_of GiRing pq bs :: Z.of_nat (length ls) :: flat_map (fun l => Z.of_nat (length l) :: l) ls.
+
+(* swap_site with the Jordan-Wigner rule given as a finite table *)
+Definition tie_swap_jw (nprim nprim' : nat) (tbl : list ((nat * nat) * (nat * nat * gi))) (b2 b3 : bond GiRing)
+           (ws : list (wit GiRing)) : list Z :=
+  let t := map (jw_row GiRing (phi_of_table GiRing tbl) (nprim' - nprim)) (dedup GiRing gi_zero (swap_table GiRing nprim b2 b3)) in
+  b2z (sweep_okb GiRing gi_zero ws t) ::
+  match swap_site_jw GiRing gi_zero nprim nprim' (phi_of_table GiRing tbl) b2 b3 ws with
+  | Some (nb2, nb3) => 1%Z :: enc_bond nb2 ++ enc_bond nb3
+  | None => [0%Z]
+  end.
